@@ -274,7 +274,7 @@ def _limit_case(rng):
             parts.append(base._pad_to_header_limit(rng, cfg))
             continue
         n = _sizes(rng, _eff(cfg, i))
-        body = bytes(rng.randrange(256) for _ in range(min(n, 50000)))
+        body = rng.randbytes(min(n, 50000))
         parts.append(_frame(rng, body))
     data = b"".join(parts)
     if rng.random() < 0.08:
@@ -284,10 +284,10 @@ def _limit_case(rng):
 
 
 def _gzip_case(rng):
-    limit = rng.choice([1, 16, 100, 255, 256, 1000, 4096, 65536, 70000])
+    limit = rng.choice([1, 16, 100, 255, 256, 1000, 4096] * 3 + [65536, 70000])
     cfg = {"mh": 65536, "mb": limit, "ov": [], "nk": False}
     if rng.random() < 0.3:
-        eff = rng.choice([1, 16, 100, 300, 2000, 5000, 100000])
+        eff = rng.choice([1, 16, 100, 300, 2000, 5000])
         cfg["mb"] = rng.choice([10, 100, 1000, 100000])
         cfg["ov"] = [eff]
         limit = eff
@@ -296,7 +296,7 @@ def _gzip_case(rng):
     if k < 0.3:
         plain = bytes(n)                                   # bomb-like: high ratio
     elif k < 0.6:
-        plain = bytes(rng.randrange(256) for _ in range(n))   # incompressible
+        plain = rng.randbytes(n)   # incompressible
     else:
         plain = (b"abcdefgh" * (n // 8 + 1))[:n]
     complete = True
@@ -323,8 +323,8 @@ def _gzip_case(rng):
 
 
 def gen_cases(rng, tier):
-    n_lim = {"quick": 700, "thorough": 14000, "search": 800}[tier]
-    n_gz = {"quick": 500, "thorough": 9000, "search": 500}[tier]
+    n_lim = {"quick": 700, "thorough": 5000, "search": 800}[tier]
+    n_gz = {"quick": 500, "thorough": 2500, "search": 500}[tier]
     for _ in range(n_lim):
         cfg, data, gen = _limit_case(rng)
         n = len(data)
